@@ -17,7 +17,8 @@ MANIFEST = dict(
          "(c) subjects: every subscriber's trace obeys the grammar (C10.subscriber_grammar). "
          "Tie: every catalogue operator's machine is run against the real operator on exhaustive/seeded raw scripts incl. illegal suffixes (kinds + drops compared), plus a direct Grammar oracle on the implementation trace."
          ' Pipelines under goroutine-driven producers with a racing terminal (the overlap / overlap2 set-ups): no callback of the final observer begins after its terminal callback wherever the regenerated constructor table (RoProps/C02b, premise of the concurrent clause) says a locking subscriber sits in front of it.'
-         ' One observer attached through Subscribe to two sources (RoModel/ObsShared.lean; shared_observer_grammar / shared_observer_partition: the merged callback trace is grammatical for every interleaving, the rest is dropped; kind=sharedobs) and the partial observers OnNext / OnError / OnComplete / NoopObserver / NewObserver (RoModel/ObsPartial.lean; partial_observer_sees: the one callback sees the notifications of its kind in the gated script, the terminal is consumed, the rest goes to the dropped hook; kind=nilobs ctor=).',
+         ' One observer attached through Subscribe to two sources (RoModel/ObsShared.lean; shared_observer_grammar / shared_observer_partition: the merged callback trace is grammatical for every interleaving, the rest is dropped; kind=sharedobs) and the partial observers OnNext / OnError / OnComplete / NoopObserver / NewObserver (RoModel/ObsPartial.lean; partial_observer_sees: the one callback sees the notifications of its kind in the gated script, the terminal is consumed, the rest goes to the dropped hook; kind=nilobs ctor=).'
+         " Subscribers of a subject after illegal late notifications and late subscriptions (the kind=subject runs read through C01's projection: kinds delivered, notifications dropped; C10 among the modules); a hand-written observer subscribed directly to an observable whose subscribe function emits and then panics, also after its own terminal (kind=fault op=RawDirect; fault semantics of C07).",
     technique="Lean 4 proof (induction over raw scripts, gate lemmas) + differential correspondence of the executable model against the implementation",
     ref='5/C01')
 
